@@ -184,6 +184,23 @@ NegCases(sigs) ==
      \cup { History(L3, sigs, <<NdKeygenStep(ListOf(<<<<"U">>, <<"U">>, <<"H">>>>, 1), 0), NdQualStep(1, ListOf(<<<<"V", v7>>, <<"U">>, <<"U">>>>, 1), 0),
                                  AdjNdStep(2, 1, ListOf(<<<<"V", v7>>, <<"U">>, <<"U">>>>, 1), fl), EncStepC(fl), DecStep(4, 3)>>, "neg", "fill-hidden-adjust") : fl \in fills }
 
+\* parameters wider than a machine word (l = 70): slot indices 63, 64, 67 next to a small one; hidden slots of a non-delegable key stay hidden
+\* wherever they are, and a free slot stays usable (an index is an index: no width is special in the documented interface)
+WideL == 70
+PW(sigs) == [l |-> WideL, sigs |-> sigs = 1] @@ Dl(WideL, sigs)
+WideCh(f) == [i \in 1..WideL |-> IF i \in DOMAIN f THEN f[i] ELSE <<"U">>]
+WideList(f) == ListOf(WideCh(f), 1)
+HistoryW(sigs, steps, fam, tag) ==
+  [op |-> "wk.history", l |-> WideL, sigs |-> sigs, params |-> ParamsRaw(WideL, sigs), msk |-> MskRaw(WideL, sigs), dl |-> DlOut(WideL, sigs),
+   steps |-> steps, fam |-> fam, tag |-> tag, src |-> "gen"]
+WideCases(sigs) ==
+  LET hid == WideList(6 :> <<"H">> @@ 64 :> <<"H">> @@ 65 :> <<"H">> @@ 68 :> <<"H">>)           \* slots 5, 63, 64, 67 hidden
+      v5 == FromNat(5)
+      fills == { WideList(k :> <<"V", v5>>) : k \in {6, 64, 65, 68} }                              \* attempts on a hidden slot
+      free == { WideList(k :> <<"V", v5>>) : k \in {1, 63, 66, 70} }                               \* slots 0, 62, 65, 69 are free
+  IN { HistoryW(sigs, <<NdKeygenStep(hid, 0), NdQualStep(1, fl, 0), EncStepC(fl), DecStep(3, 2)>>, "neg", "fill-hidden-wide") : fl \in fills }
+     \cup { HistoryW(sigs, <<NdKeygenStep(hid, 0), NdQualStep(1, fl, 0), EncStepC(fl), DecStep(3, 2), DecMasterStep(3)>>, "neg", "fill-free-wide") : fl \in free }
+
 \* ---- family "sig" (C13) -------------------------------------------------------------------------------------------------
 Msgs == IF Tier = "quick" THEN { One, RMod, Sub(Pow2(256), One) } ELSE { Zero, One, Sub(RMod, One), RMod, Sub(Pow2(256), One), RndR(400) }
 OtherMsg(m) == IF Lt(Add(m, One), Pow2(256)) THEN Add(m, One) ELSE Sub(m, One)
@@ -293,7 +310,7 @@ Mix(i) == LET j == IF i > 200000 THEN (i % 200000) + 7 * (i \div 200000) ELSE i
           IN (((j * 7919 + (Seed % 4000) * 104729 + 12345) % 1000003) * 31 + j) % 1000003
 Thinned(sq) == LET sel == SelectSeq([i \in 1..Len(sq) |-> i], LAMBDA i : Mix(i) % Keep = 0 /\ i % NShards = Shard) IN [k \in 1..Len(sel) |-> sq[sel[k]]]
 Cases == CASE Family = "deleg" -> LET ds == Thinned(SetToSeq(DelegDescs) \o SetToSeq(ChainDescs)) \o (IF Shard = 0 THEN SetToSeq(HvDescs) ELSE <<>>) IN [k \in 1..Len(ds) |-> BuildDeleg(ds[k])] \o (IF Shard = 0 THEN SetToSeq(AdjustedKeyHistories) ELSE <<>>)
-           [] Family = "neg" -> Thinned(SetToSeq(NegCases(1)))
+           [] Family = "neg" -> Thinned(SetToSeq(NegCases(1))) \o SetToSeq(WideCases(0))
            [] Family = "sig" -> Thinned(SetToSeq(SigCases))
            [] Family = "inplace" -> Thinned(InplaceCases)
            [] OTHER -> LET ds == Thinned(SetToSeq(AdjustDescs)) IN [k \in 1..Len(ds) |-> BuildAdjust(ds[k])] \o SetToSeq(AdjustChains) \o (IF Shard = 0 THEN SetToSeq(AdjustSig) ELSE <<>>)
